@@ -143,6 +143,30 @@ def fam_stalled_close(rng, ident):
     return scn.line("scn", ident, s, extra="nt=1 family=close-while-write-blocked")
 
 
+def fam_cancel_behind_busy_writer(rng, ident):
+    """calls are cancelled (or time out) while the writer is busy inside Write, so their cancellation frames take the
+    deferred path; the peer then drains (or not) and the transport stops: nothing of the library may remain"""
+    k = 1 + rng.below(4)
+    s = []
+    for c in range(1, k + 1):
+        s.append(scn.call(c, pad=rng.below(8)))
+    s += ["stallw/on", scn.notify(50, nowait=True), "waitinwrite"]
+    for c in rng.shuffle(list(range(1, k + 1))):
+        s.append(scn.cancel(c))
+    s.append("sleep/1")
+    drained = rng.chance(2, 3)
+    if drained:
+        s += ["stallw/off", "await/n50", "settle", "sample/open"]
+    stop = rng.choice(["close", "readerr/eof", "readerr/op"])
+    s.append(stop)
+    if stop != "close":
+        s.append("waitdone")
+    if not drained:
+        s.append("await/n50")
+    s += ["settle", "sleep/2", "settle", "sample/final"]
+    return scn.line("scn", ident, s, extra="nt=1 family=cancel-behind-busy-writer-then-stop")
+
+
 def explore(ctx):
     rng, tier = ctx["rng"], ctx["tier"]
     if ctx.get("replay"):
@@ -168,6 +192,8 @@ def explore(ctx):
                 lines.append(fam_d(rng, "d%d" % n, dup)); n += 1
         for _ in range({"quick": 12, "thorough": 200, "search": 30}[tier]):
             lines.append(fam_cancelled_then_close(rng, "p%d" % n)); n += 1
+        for _ in range({"quick": 12, "thorough": 200, "search": 30}[tier]):
+            lines.append(fam_cancel_behind_busy_writer(rng, "q%d" % n)); n += 1
     triples, tie = C.run_both(ctx, "TestVerifScn", lines, go_timeout=1500)
     fams = {}
     for l in lines:
